@@ -104,6 +104,9 @@ pub fn universe_by_label(label: &str, opts: &Opts) -> Universe {
     if label == "zst" {
         return vmodel::fixedgen::zst_universe();
     }
+    if label == "wide" {
+        return vmodel::fixedgen::wide_universe();
+    }
     if label == "odd" {
         return vmodel::fixedgen::odd_universe();
     }
